@@ -12,7 +12,7 @@ import ast
 from .. import anchors as A
 from ..consteval import try_fold
 from ..flow import ANY_EXC, CANCEL
-from ..model import AnalysisError, Project, call_name, kwarg, walk_local
+from ..model import AnalysisError, Project, call_name, kwarg, local_values, walk_local
 from ..paths import PState, PathAnalysis, has_await, run_paths, subst_text, calls_in_order, is_benign_call
 from ..report import Report
 from . import _stdio
@@ -204,11 +204,25 @@ def check(P: Project, R: Report) -> None:
 
     # wrappers delegate
     tw = P.func("chuk_mcp.transports.stdio.transport", "StdioTransport.__aexit__")
-    calls = [c for c in walk_local(tw.node) if isinstance(c, ast.Call) and call_name(c) == "self._client.__aexit__"]
+    # the attribute holding the client: assigned `StdioClient(...)` somewhere in StdioTransport
+    holder = {ast.unparse(s.targets[0]) for g in P.methods(tw.cls).values() for s in walk_local(g.node)
+              if isinstance(s, ast.Assign) and len(s.targets) == 1 and isinstance(s.value, ast.Call) and call_name(s.value).split(".")[-1] == "StdioClient"}
+    R.need(len(holder) == 1, f"anchor: StdioTransport holds its client in {sorted(holder)}")
+    calls = [c for c in walk_local(tw.node) if isinstance(c, ast.Call) and call_name(c) == f"{next(iter(holder))}.__aexit__"]
     R.ob("R2", "StdioTransport.__aexit__ delegates to the client's shutdown", len(calls) == 1, tw.where, "")
     for wname in ("stdio_client", "stdio_client_with_initialize"):
         w = P.func(A.MOD_STDIO, wname)
-        aw = [n for n in walk_local(w.node) if isinstance(n, ast.AsyncWith) and any(ast.unparse(it.context_expr) == "client" for it in n.items)]
+        lv = local_values(w.node)
+
+        def _is_client(e):
+            if isinstance(e, ast.Call):
+                return call_name(e).split(".")[-1] == "StdioClient"
+            if isinstance(e, ast.Name):
+                vs = lv.get(e.id)
+                return bool(vs) and all(v is not None and _is_client(v) for v in vs)
+            return False
+
+        aw = [n for n in walk_local(w.node) if isinstance(n, ast.AsyncWith) and any(_is_client(it.context_expr) for it in n.items)]
         R.ob("R2", f"{wname} enters the client with `async with` (shutdown runs on every exit)", len(aw) == 1, w.where, "")
 
     # ------------------------------------------------------------------ R4
